@@ -131,7 +131,7 @@ def build_driver(name, sources, variant="asan", extra=(), wraps=()):
     d, ar = build_lib(variant)
     out = os.path.join(d, name)
     srcs = [os.path.join(VERIF, "harness", s) for s in sources]
-    hdr = [os.path.join(VERIF, "harness", "vcommon.h")]
+    hdr = [os.path.join(VERIF, "harness", h) for h in os.listdir(os.path.join(VERIF, "harness")) if h.endswith(".h")]
     newest = max(os.path.getmtime(p) for p in srcs + [h for h in hdr if os.path.exists(h)])
     if os.path.exists(out) and os.path.getmtime(out) >= newest:
         return out
@@ -421,6 +421,9 @@ class Check:
             print("VIOLATION property=%s replay=%s%s" % (self.pid, p, " no-failing-input-found" if nf else ""), flush=True)
         if self.violations:
             sys.exit(1)
+        if self.cov["evaluations"] == 0 and "--replay" not in sys.argv:
+            # a correspondence leg that compared nothing is not a pass
+            raise BuildError("no evaluation was made: the check compared nothing")
         print("OK property=%s tier=%s obligations=%d discharged=%d evaluations=%d distinct_nontrivial=%d wall=%.1fs" % (
             self.pid, self.tier, self.cov["obligations"], self.cov["discharged"], self.cov["evaluations"],
             self.cov["distinct_nontrivial"], time.time() - self.t0), flush=True)
